@@ -375,6 +375,8 @@ def random_case():
     return st.fixed_dictionaries({"cfg": cfg, "ops": st.lists(op, min_size=1, max_size=60)})
 
 
+HYP = {"random": (lambda ctx: random_case(), lambda ctx, c: run_case(ctx, "random", c))}
+
 def run(ctx):
     quick = ctx.tier == "quick"
     n = 4 if quick else 6
@@ -382,4 +384,4 @@ def run(ctx):
     ctx.exhaustive("sequences", True, "%d configurations x all %d^%d op sequences" % (len(ENUM_CFGS), len(ENUM_OPS), n))
     ctx.parallel("shard_pairs", [(1 + 10 * i, min(201, 11 + 10 * i)) for i in range(20)])
     ctx.exhaustive("pairs", True, "all (max, step) with 1 <= max <= 200, 0 <= step <= max")
-    ctx.hyp(random_case(), lambda c: run_case(ctx, "random", c), 1200 if quick else 40000, salt=1)
+    ctx.hyp_sharded("random", 6000 if quick else 80000, salt=1)
